@@ -10,6 +10,7 @@ import (
 	"github.com/hashicorp/hcl/v2/hclwrite"
 	"github.com/zclconf/go-cty/cty"
 
+	"verif/engine/h/gen"
 	"verif/engine/h/seeds"
 	"verif/engine/vf"
 )
@@ -288,5 +289,33 @@ func H_LoadSeed() { checkLoad(seedWindow()) }
 func H_LoadGaps() {
 	src, _ := gapped()
 	vf.Observe("src", src)
+	checkLoad(src)
+}
+
+// genSource: "a = <generated expression>" (optionally inside a block, with a comment).
+func genSource() []byte {
+	sp := vf.Concretize(vf.Choice(3))
+	e := gen.Expr(vf.Param("depth", 1), sp)
+	switch vf.Concretize(vf.Choice(3)) {
+	case 0:
+		return []byte("a = " + e + "\n")
+	case 1:
+		return []byte("blk {\n  a   =   " + e + " # c\n  bb = 1\n}\n")
+	}
+	return []byte("a=" + e + "\nb = [\n  " + e + ",\n]\n")
+}
+
+// H_FormatGen / H_LoadGen: every expression derivable from the grammar of package
+// gen within the depth bound, in three spacing styles and three contexts.
+func H_FormatGen() {
+	src := genSource()
+	vf.Observe("src", string(src))
+	toks, _ := lexAll(src)
+	checkFormat(src, sigDotNumber(toks), "")
+}
+
+func H_LoadGen() {
+	src := genSource()
+	vf.Observe("src", string(src))
 	checkLoad(src)
 }
